@@ -60,7 +60,9 @@ def file_families(tier):
         for k in range(NK): near.add(tuple(CANON[:i] + [k] + CANON[i:]))             # one line inserted
     nearl = sorted(near)
     nofinalnl = [(len(t), code(t), 0) for t in nearl if len(t) > 0]
-    return [('short', short), ('near', [(len(t), code(t), 1) for t in nearl]), ('near-no-final-newline', nofinalnl)]
+    # a second crystal that fails (or repeats the name) after a complete first one: the rollback must remove the first one too
+    two = [[0, 2, 4, 1], [0, 2, 4, 0], [0, 2, 4, 0, 2, 4], [0, 2, 4, 6, 0, 3], [0, 2, 4, 5, 0, 2], [0, 2, 4, 5, 1], [0, 2, 4, 6, 6, 0]]
+    return [('short', short), ('near', [(len(t), code(t), 1) for t in nearl]), ('near-no-final-newline', nofinalnl), ('two-crystals', [(len(t), code(t), nl) for t in two for nl in (1, 0)])]
 
 
 def readfile(run, prefix='C14'):
@@ -76,10 +78,11 @@ def readfile(run, prefix='C14'):
             if r.returncode != 0: raise core.BuildError('goto-cc c14_read.c: ' + (r.stderr or r.stdout)[-2000:])
             out.append(gb)
         return out
-    units = {}
+    units = {}; ulock = __import__('threading').Lock()
     def batch(oid, na, n, name, files, wit, what_extra):
         try:
-            if (na, n) not in units: units[(na, n)] = unit(na, n)
+            with ulock:                                            # batches run in threads: build each unit once
+                if (na, n) not in units: units[(na, n)] = unit(na, n)
             gbs = []
             for w in ((False, True) if wit else (False,)):
                 tr = os.path.join(run.tmp, 'c14rt_%s%s.gb' % (oid.replace('/', '_'), '_w' if w else ''))
@@ -114,10 +117,10 @@ def readfile(run, prefix='C14'):
     NB = 30
     for name_, files in fam[1:]:
         for na, n, nm in pre:
-            if name_ != 'near' and (na, n, nm) not in ((0, 0, 'a'), (2, 1, 'b')): continue
+            if name_ == 'near-no-final-newline' and (na, n, nm) not in ((0, 0, 'a'), (2, 1, 'b')): continue
             for i in range(0, len(files), NB):
                 T.append(lambda name_=name_, files=files[i:i + NB], na=na, n=n, nm=nm, i=i: batch('%s/readfile/%s/cap%d_n%d_%s/%d' % (prefix, name_, na, n, nm, i // NB), na, n, nm, files, name_ == 'near' and (na, n, nm) == (0, 0, 'a') and i == 0,
-                                                                                'canonical file #S/#UCELL/#L/atom/# with one line missing, replaced or inserted' + ('' if name_ == 'near' else ', last line without newline')))
+                                                                                ('a complete first crystal followed by a second one that fails or repeats the name' if name_ == 'two-crystals' else 'canonical file #S/#UCELL/#L/atom/# with one line missing, replaced or inserted' + ('' if name_ == 'near' else ', last line without newline'))))
     srcs = [run.harness('c14_read.c')] + aux
     T.append(lambda: run.cbmc(prefix + '/readfile/canonical', srcs + [run.harness('c14_read_tramp.c')], 'harness_readfile_canonical', unwind=12, backends=('cadical',), functions=fns, leak=True, object_bits=12,
                               flags=('--max-field-sensitivity-array-size', '600'), bounds='the one canonical file', what='the canonical single-crystal file (#S, #UCELL, #L, one atom line, a terminating comment) is accepted and yields that crystal'))
